@@ -69,7 +69,9 @@ fn main() {
     let mut model = model::Model::spawn(&model_path);
     match prop.as_str() {
         "C01" => props::c01::run(&ctx, &mut model, &mut rep),
+        "C02" => props::c02::run(&ctx, &mut model, &mut rep),
         "C04" => props::c04::run(&ctx, &mut model, &mut rep),
+        "C07" => props::c07::run(&ctx, &mut model, &mut rep),
         "C15" => props::c15::run(&ctx, &mut model, &mut rep),
         "C17" => props::c17::run(&ctx, &mut model, &mut rep),
         "C18" => props::c18::run(&ctx, &mut model, &mut rep),
